@@ -132,7 +132,8 @@ def kx_obligations(unit_name, desc, tier, hres):
         st = r['status']
         if st == 'SUCCESSFUL':
             cov = r.get('covers')
-            if cov and cov[0] < cov[1]:
+            # covers_unsat_ok: covers of a shared harness body that cannot be reached from this instance by construction (reason in the unit file)
+            if cov and cov[0] < cov[1] - h.get('covers_unsat_ok', 0):
                 undecided.append('%s: vacuity guard: only %d of %d cover properties satisfied' % (h['name'], cov[0], cov[1]))
             if h.get('covers') and (not cov or cov[1] < h['covers']):
                 undecided.append('%s: expected %d cover properties, Kani reported %s' % (h['name'], h['covers'], cov))
